@@ -48,6 +48,10 @@ ERRORS = [
     ("bad-suffix", "lda.q #1", 4), ("bad-suffix-eol", "lda.", 4), ("bad-index", "lda 0x10,z", 9), ("bad-index-spaced", "lda 0x10 ,  q", 12),
     ("unterminated-string", ".ascii 'abc", 7), ("invalid-char", "lda #1 ?", 7), ("invalid-char-start", "$", 0),
     ("unknown-keyword", ".bogus 1", 1), ("unterminated-comment", "/* never closed", 0),
+    # syntax errors whose offending token stands on the statement's own line (a statement that merely ends too early is
+    # reported at the NEXT token, wherever that is: C17_parse_error_locus)
+    ("syntax-second-comma", ".db 1, ,", 7), ("syntax-macro-number", ".macro 1", 7), ("syntax-if-brace", ".if {", 4),
+    ("syntax-index-combination", "lda (1,x),y", 10), ("syntax-for-number", ".for 1 := 0, 2 {", 5),
     # a string left open whose last character is a backslash, with a quote on the next line: still THIS line's error
     ("unterminated-string-backslash", ".ascii 'C:\\", 7), ("unterminated-string-backslash-q", ".ascii 'it\\'s\\", 7),
     # a statement continued on the following lines (newlines are blanks between tokens): the report names the line the
